@@ -25,9 +25,7 @@ PeerClasses ==
     "p-update-badsig", "p-vfund-junk", "p-vfund-manysigs", "p-vfund-badimap", "p-vfund-valid-unmatched",
     "p-vsettle-junk", "p-vsettle-manysigs", "p-sync-empty", "p-sync-current", "p-sync-newer-unsigned",
     "p-acc-wrongsig", "p-acc-future", "p-rej-current", "p-subprop-valid", "p-subprop-exceed", "p-subprop-twice",
-    "p-propacc-unknown", "p-ledgerprop-again",
-    \* "-x20": the same message twenty times in a row - more than any receiver of H buffers (16)
-    "p-update-valid-x20", "p-rej-current-x20", "p-acc-wrongsig-x20", "p-sync-current-x20" }
+    "p-propacc-unknown", "p-ledgerprop-again" }
 Classes == StrangerClasses \cup PeerClasses
 (* life-cycle points of H's channel with P *)
 Points == { "nochannel", "open", "inflight", "handling", "proposing", "subopen", "subsettled", "hub" }
@@ -40,8 +38,7 @@ Points == { "nochannel", "open", "inflight", "handling", "proposing", "subopen",
    Classes that only exist at these points: *)
 Special ==
   [ proposing  |-> { "p-propacc-match-sub", "p-propacc-match-virtual", "p-propacc-match-ledger", "p-propacc-match-ledger-nopart",
-                     "p-proprej-match", "s-propacc-match-sub", "s-proprej-match",
-                     "p-propacc-match-ledger-x20", "p-propacc-match-sub-x20", "p-proprej-match-x20" },
+                     "p-proprej-match", "s-propacc-match-sub", "s-proprej-match" },
     subopen    |-> { "p-update-withdraw-early", "p-update-fund-again", "p-subupdate-valid", "p-subupdate-badsig" },
     subsettled |-> { "p-update-refund-sub", "p-update-withdraw-again", "p-subupdate-settled" },
     hub        |-> { "p-vsettle-lone", "x-vsettle", "x-vsettle-late", "p-vfund2-lone", "x-vfund2", "x-vfund2-late",
@@ -66,10 +63,12 @@ EmitN(pt, s, net) == PrintT(ToJson([point |-> pt, seq |-> s, net |-> net,
                                     dep |-> (Len(s) = 2 /\ s[1] \in SpecialOf(pt) /\ s[2] \in SpecialOf(pt))]))
 Emit(pt, s) == EmitN(pt, s, "ok")
 Singles == \A pt \in Points : \A c \in At(pt) : Emit(pt, <<c>>) /\ EmitN(pt, <<c>>, "down") /\ EmitN(pt, <<c>>, "stall")
+(* "-x20": the same message twenty times in a row - more than any receiver of H buffers (16) *)
+Floods == \A pt \in Points : \A c \in At(pt) : Emit(pt, <<c \o "-x20">>)
 (* pairs: everything at the four basic points; at the three deeper points every pair with a point-specific class *)
 Pairs == \A pt \in Points : \A c \in At(pt) : \A d \in At(pt) :
             (SpecialOf(pt) = {} \/ c \in SpecialOf(pt) \/ d \in SpecialOf(pt)) => Emit(pt, <<c, d>>)
-ASSUME Singles /\ Pairs
+ASSUME Singles /\ Floods /\ Pairs
 
 VARIABLE dummy
 Init == dummy = 0
